@@ -43,6 +43,50 @@ func verifCorruptFieldAt(region, lo, hi int) {
 	vrt.Covered("corrupted-file-dumped")
 }
 
+// the datatype message of the dataset (located through the library's own header reader): its class/flags word and
+// its size field replaced two bytes at a time by arbitrary bytes; the walk includes a one-element partial read
+func VerifH_C07_api_corrupt_datatype_message() {
+	vrt.LoopBound(200000)
+	vrt.AllocBudget(1 << 28)
+	vrt.SampleSizes()
+	hdr, _, _ := verifDenseFile("c07t.h5")
+	raw, err := os.ReadFile("c07t.h5")
+	vrt.AssertNoErr(err, "raw-read-ok")
+	f, err := Open("c07t.h5")
+	vrt.AssertNoErr(err, "intact-open-ok")
+	oh, err := core.ReadObjectHeader(f.osFile, hdr, f.sb)
+	vrt.AssertNoErr(err, "header-read-ok")
+	var dt []byte
+	for _, m := range oh.Messages {
+		if m.Type == core.MsgDatatype {
+			dt = m.Data
+		}
+	}
+	_ = f.Close()
+	vrt.Assert(len(dt) >= 8, "datatype-message-found")
+	at := -1
+	for i := int(hdr); i+len(dt) <= len(raw) && i < int(hdr)+400; i++ {
+		same := true
+		for k := range dt {
+			if raw[i+k] != dt[k] {
+				same = false
+				break
+			}
+		}
+		if same {
+			at = i
+			break
+		}
+	}
+	vrt.Assert(at > 0, "datatype-message-located")
+	off := at + 2*vrt.Choice(4) // bytes 0..7: class+version, flags, size
+	nb := vrt.Bytes(2)
+	raw[off], raw[off+1] = nb[0], nb[1]
+	vrt.AssertNoErr(os.WriteFile("c07t.h5", raw, 0o644), "rewrite-ok")
+	_, _ = verifDumpFile("c07t.h5")
+	vrt.Covered("corrupted-file-dumped")
+}
+
 func VerifH_C07_api_corrupt_heap_header() { verifCorruptField(0) }
 func VerifH_C07_api_corrupt_index_header() { verifCorruptField(1) }
 func VerifH_C07_api_corrupt_object_header_00() { verifCorruptFieldAt(2, 0, 4) }
